@@ -189,7 +189,7 @@ impl Prop for Faulted {
     }
 }
 
-const ENUM_RULE: &str = "deterministic single-fault grid on the bundled voice and 20 fixed generated voices: every header number x 11 replacements; every header line deleted and duplicated; truncation at every section/block boundary +-1; every single-character substitution (17 structural characters and the 8 one-bit errors) at every position of the header, tree and window text (header only on the bundled voice); plus the unmodified file (must load). Non-trivial: loader returned Err; distinct by (base, fault)";
+const ENUM_RULE: &str = "deterministic single-fault grid on the bundled voice and 20 fixed generated voices: every header number x 11 replacements; every header line deleted and duplicated; truncation at every section/block boundary +-1; every single-character substitution (17 structural characters and the 8 one-bit errors) at every position of the header, tree and window text (header only on the bundled voice); on generated voices every pair (one header number -> 0, another one -> value+-1); plus the unmodified file (must load). Non-trivial: loader returned Err; distinct by (base, fault)";
 
 fn eval_enum_case(base: usize, desc: &str, bytes: &[u8], must_load: bool) -> Result<LoadOutcome, Failure> {
     note_inflight(&json!({ "kind": "enum", "base": base, "fault": desc }), bytes);
@@ -357,6 +357,52 @@ fn extra(s: &mut Session) {
         }
     }
     total += chars;
+    // double faults on header numbers: one number set to 0 together with another one moved by +-1
+    // (a count or length that becomes zero while an offset slips by one is the classic way to make a
+    // reader loop or allocate without bound); all pairs, on the small generated voices
+    let pair_bases: Vec<usize> = if s.tier == Tier::Quick { vec![1, 2] } else { (1..nbases).collect() };
+    let mut pairs = 0u64;
+    for base in pair_bases {
+        let bytes = base_voice(base);
+        let Some(idx) = index_voice(&bytes) else { continue };
+        let n = idx.numbers.len();
+        let jobs: Vec<(usize, usize, usize)> = (0..n).flat_map(|i| (0..n).filter(move |j| *j != i).flat_map(move |j| [(i, j, 2usize), (i, j, 3usize)])).collect();
+        let build = |j: &(usize, usize, usize)| -> Vec<u8> {
+            // replace the later token first so that the earlier token's offsets stay valid
+            let (zero, moved, r) = *j;
+            if idx.numbers[zero].start > idx.numbers[moved].start {
+                let b = replace_number(&bytes, &idx.numbers[zero], 0);
+                replace_number(&b, &idx.numbers[moved], r)
+            } else {
+                let b = replace_number(&bytes, &idx.numbers[moved], r);
+                replace_number(&b, &idx.numbers[zero], 0)
+            }
+        };
+        let desc_of = |j: &(usize, usize, usize)| format!("number#{}->0 + number#{}->value{}", j.0, j.1, if j.2 == 2 { "+1" } else { "-1" });
+        let nthreads = std::thread::available_parallelism().map(|n| n.get()).unwrap_or(4).min(16);
+        let chunk = jobs.len().div_ceil(nthreads).max(1);
+        let results: Vec<Vec<Result<LoadOutcome, Failure>>> = std::thread::scope(|sc| {
+            let hs: Vec<_> = jobs
+                .chunks(chunk)
+                .map(|part| {
+                    let build = &build;
+                    let desc_of = &desc_of;
+                    sc.spawn(move || part.iter().map(|j| eval_enum_case(base, &desc_of(j), &build(j), false)).collect::<Vec<_>>())
+                })
+                .collect();
+            hs.into_iter().map(|h| h.join().unwrap_or_default()).collect()
+        });
+        for (j, r) in jobs.iter().zip(results.into_iter().flatten()) {
+            pairs += 1;
+            let b = if r.is_err() { build(j) } else { Vec::new() };
+            let bref: &[u8] = if r.is_err() { &b } else { &bytes };
+            if !record_enum_case(s, base, desc_of(j), bref, r) {
+                return;
+            }
+        }
+    }
+    total += pairs;
+    s.extra.insert("enumerated_double_number_faults".into(), json!(pairs));
     s.set_exhaustive("fault-grid", true);
     s.extra.insert("enumerated_single_faults".into(), json!(total));
     s.extra.insert("enumerated_single_character_substitutions".into(), json!(chars));
